@@ -24,8 +24,12 @@ import sys
 PKG = os.path.join(os.environ.get("VERIF_REPO", "/repo"), "pygradflow")
 SKIP_DIRS = {"runners"}
 CALLBACKS = {"obj", "obj_grad", "cons", "cons_jac", "lag_hess"}
-OBSERVER_WORDS = ("display", "getEffectiveLevel", "level", "report_rcond", "collect_path", "path is not None", "path is None",
+OBSERVER_WORDS = ("display", "getEffectiveLevel", "isEnabledFor", "level", "report_rcond", "collect_path", "path is not None", "path is None",
                   "callbacks")
+# numpy / scipy.sparse operations that change their receiver (first argument) in place
+MUTATING_METHODS = {"setdiag", "sort", "sort_indices", "sum_duplicates", "eliminate_zeros", "resize", "fill", "put", "itemset",
+                    "partition", "setflags", "prune", "byteswap", "setfield"}
+MUTATING_FUNCTIONS = {"np.copyto", "np.put", "np.place", "np.putmask", "np.fill_diagonal", "np.put_along_axis", "numpy.copyto"}
 CTORS = {"penalty_strategy", "step_controller", "solver_display", "Timer", "inner_display", "create_evaluator",
          "Transformation", "create_scaling", "LogController", "Controller", "Callbacks", "ConditionEstimator"}
 INTEREST = ("linear_solver(", ".solve(", "estimate_rcond(", "check_eval(", "print_problem_stats(", ".step(", "splu(",
@@ -105,6 +109,9 @@ class FuncInfo(ast.NodeVisitor):
             self.visit(s)
         self.handlers.pop()
         for h in node.handlers:
+            hn = ["BaseException"] if h.type is None else ([ast.unparse(e) for e in h.type.elts] if isinstance(h.type, ast.Tuple) else [ast.unparse(h.type)])
+            for nm in hn:
+                self.out["handler_bodies"].append((self.mod, self.qual, nm, self.effects_of(h.body)))
             for s in h.body:
                 self.visit(s)
         for s in node.orelse + node.finalbody:
@@ -119,17 +126,26 @@ class FuncInfo(ast.NodeVisitor):
         self.generic_visit(node)
 
     def effects_of(self, stmts):
+        """calls / stores / control transfers under the statements; what sits inside a lambda or a nested def does not
+        run here: it is recorded as `deferred ...` (it runs wherever the closure is called)"""
         eff = []
+
+        def walk(node, deferred):
+            pre = "deferred " if deferred else ""
+            if isinstance(node, ast.Call):
+                eff.append(pre + "call " + ast.unparse(node.func))
+            elif isinstance(node, (ast.Assign, ast.AugAssign, ast.AnnAssign)):
+                tgts = node.targets if isinstance(node, ast.Assign) else [node.target]
+                for t in tgts:
+                    eff.append(pre + "store " + ast.unparse(t))
+            elif isinstance(node, (ast.Return, ast.Raise, ast.Break, ast.Continue)) and not deferred:
+                eff.append(type(node).__name__.lower())
+            inner = deferred or isinstance(node, (ast.Lambda, ast.FunctionDef, ast.AsyncFunctionDef))
+            for ch in ast.iter_child_nodes(node):
+                walk(ch, inner)
+
         for s in stmts:
-            for node in ast.walk(s):
-                if isinstance(node, ast.Call):
-                    eff.append("call " + ast.unparse(node.func))
-                elif isinstance(node, (ast.Assign, ast.AugAssign, ast.AnnAssign)):
-                    tgts = node.targets if isinstance(node, ast.Assign) else [node.target]
-                    for t in tgts:
-                        eff.append("store " + ast.unparse(t))
-                elif isinstance(node, (ast.Return, ast.Raise, ast.Break, ast.Continue)):
-                    eff.append(type(node).__name__.lower())
+            walk(s, False)
         seen, out = set(), []
         for e in eff:
             if e not in seen:
@@ -164,6 +180,10 @@ class FuncInfo(ast.NodeVisitor):
         full = ftxt + "("
         if any(full.endswith(p) for p in INTEREST):
             self.out["guarded_calls"].append((self.mod, self.qual, ftxt, self.cur_handlers()))
+        if isinstance(f, ast.Attribute) and f.attr in MUTATING_METHODS:
+            self.inplace("method " + f.attr, f.value)
+        if ftxt in MUTATING_FUNCTIONS and node.args:
+            self.inplace("function " + ftxt, node.args[0])
         for kw in node.keywords:
             if kw.arg == "out":
                 self.inplace("out=", kw.value)
@@ -240,7 +260,7 @@ class FuncInfo(ast.NodeVisitor):
 def extract():
     out = {k: [] for k in ("iterate_sites", "eval_sites", "guarded_calls", "raise_sites", "assert_sites", "observer_sites",
                            "creation_sites", "self_stores", "self_first_use", "module_state", "default_args", "inplace_ops",
-                           "modules")}
+                           "handler_bodies", "modules")}
     for root, dirs, files in os.walk(PKG):
         dirs[:] = sorted(d for d in dirs if d not in SKIP_DIRS and not d.startswith("__"))
         for fn in sorted(files):
@@ -313,6 +333,8 @@ def emit(out, path):
             ["(%s, %s, %s, %d%%Z, %d%%Z)" % (q(r[0]), q(r[1]), q(r[2]), r[3], r[4]) for r in out["self_first_use"]])
     deflist("module_state", "string * string * string", ["(%s, %s, %s)" % tuple(q(x) for x in r) for r in out["module_state"]])
     deflist("default_args", "string * string * string", ["(%s, %s, %s)" % tuple(q(x) for x in r) for r in out["default_args"]])
+    deflist("handler_bodies", "string * string * string * list string",
+            ["(%s, %s, %s, %s)" % (q(r[0]), q(r[1]), q(r[2]), qlist(r[3])) for r in out["handler_bodies"]])
     deflist("inplace_ops", "string * string * string * string * list string",
             ["(%s, %s, %s, %s, %s)" % (q(r[0]), q(r[1]), q(r[2]), q(r[3]), qlist(r[4])) for r in out["inplace_ops"]])
     with open(path, "w") as fh:
